@@ -263,7 +263,13 @@ func (incr *incremental[Obj]) commitStatus() (numErrors int) {
 			// modifying the object during reconciliation as the following will forget
 			// the changes.
 			currentStatus := incr.config.GetObjectStatus(current)
-			if currentStatus.Kind == StatusKindPending && currentStatus.ID == result.id {
+			if (currentStatus.Kind == StatusKindPending && currentStatus.ID == result.id) ||
+				currentStatus.Kind == StatusKindError {
+				// A current status of Error means that this result is from the retry of an
+				// earlier failure and that the object was since changed by someone who did
+				// not ask for it to be reconciled again (e.g. another reconciler updating its
+				// own status). The incremental loop skips such objects, so the status must be
+				// written (and a failed retry queued again) here or the object is forgotten.
 				// Retry with the object as it now is in the table so that the retry
 				// does not write back the parts changed by others in the meanwhile.
 				retryObj = current
